@@ -118,7 +118,7 @@ def siteLabel (s : Site) : String :=
 
 def unlisted : List String :=
   (GripGen.SqlSites.sites.filter fun s =>
-    !(s.safeOn s.identEnv (s.argsWith benignStr)) && !(knownUnsafe.contains s.id)).map siteLabel
+    !(s.safeOn s.identEnv (s.argsWith benignStr)) && !(knownUnsafe.contains s.num)).map siteLabel
 
 def validName (x : String) : Bool :=
   validateName GripGen.SqlSites.validateBlacklist.toList (GripGen.SqlSites.validatePrefixes.map String.toList) x.toList
